@@ -94,7 +94,7 @@ def run_go(binary, ops, measure=False, timeout=1800, vmem_kb=8000000):
     env = "ZZ_MEASURE=1 " if measure else ""
     # a decoder that dies (fatal out-of-memory) is restarted after the op in flight; misaligned reads under the known C04 finding
     # do that often, so the budget is generous
-    return run_lines("ulimit -v %d; %sexec %s" % (vmem_kb, env, binary), ops, timeout=timeout, max_crashes=5000, crash_budget_s=1800 if measure else 180)
+    return run_lines("ulimit -v %d; %sexec %s" % (vmem_kb, env, binary), ops, timeout=timeout, max_crashes=5000, crash_budget_s=400 if measure else 180)
 
 
 def parse_kv(line):
